@@ -115,6 +115,14 @@ def run(pid, tier, seed):
             conf_consts = {"TimeoutOn": "TRUE" if gen_core.PROFILES[prof].get("timeout") else "FALSE"}
             groups.append((gen_core.cfg_for(prof), plain[:ncf], "rwc-" + prof, conf_consts))
             groups.append((gen_core.cfg_for(prof), rest, "rw-" + prof, None))
+        # the same walks with two connections per node (server_connections = 2): everything but the per-node order (C10,
+        # which the property states for one connection) must hold just the same; no conformance (the design model has
+        # one connection per node)
+        if pid not in ("C10", "C08") and PLANS[pid]:
+            prof = PLANS[pid][0][0]
+            if not gen_core.PROFILES[prof].get("directed"):
+                n2 = max(40, (PLANS[pid][0][1] if q else PLANS[pid][0][2]) // 4)
+                groups.append((dict(gen_core.cfg_for(prof), conns=2), gen_core.gen_many(seed + 7919, prof, n2), "rw2-" + prof, None))
         grp = {}
         if pid == "C06":
             groups.append(({"masters": 3, "mode": "step"}, gen_core.gen_split(seed, 300 if q else 8000, 12 if q else 60), "split", None))
